@@ -1,8 +1,8 @@
 """C12 — manifest text means what the manual says (DESIGN 5.12)."""
 from facts import AnalysisBroken
-from model import (store_arms, dstr, strip, fact_holds, mentions_field, mentions_call, mentions_var,
+from model import (path_value, store_arms, dstr, strip, fact_holds, mentions_field, mentions_call, mentions_var,
                    mentions_enum, const_value, walk)
-from rules import (reached_only_through, guarded, calls_to, field_writes, who_may_call, full_range, loops_over,
+from rules import (deep_resolve, answer_sites, reached_only_through, guarded, calls_to, field_writes, who_may_call, full_range, loops_over,
                    every_iteration_passes, basename, origins, is_var, is_enum, lastname,
                    dominated_by, reject_if, must_pass, reached_only_via, canon_before_intern,
                    error_discipline, fallible)
@@ -176,13 +176,20 @@ def run(ctx):
     # ---- TA1: include / subninja scope wiring --------------------------------------------------
     R('C12.TA1', 'TA', 'include parses into the including scope, subninja into a fresh child scope; '
       'the scope is assigned on every path before the sub-parser runs')
+    # on every path that took the INCLUDE case the new-scope argument is false, on every SUBNINJA path it is true; no
+    # other token reaches the call (stated over paths: the two cases may share their code)
     for e in parse.calls('ManifestParser::ParseFileInclude'):
-        facts = parse.facts_at(e)
-        inc = fact_holds(facts, lambda a: mentions_enum(a, 'Lexer::INCLUDE'), True)
-        sub = fact_holds(facts, lambda a: mentions_enum(a, 'Lexer::SUBNINJA'), True)
-        v = const_value(e['args'][0])
-        ctx.check('C12.TA1', (inc and v == 0) or (sub and v == 1), parse.name, 'include-kind:new_scope=%s' % v, parse.where(e),
-                  'ParseFileInclude(%s) under token %s' % (bool(v), 'INCLUDE' if inc else 'SUBNINJA' if sub else '?'))
+        def wrong_scope(ev, facts, e=e):
+            inc = any(k.__class__ is str and pol is True and 'Lexer::INCLUDE' in k and '==' in k for k, pol in facts)
+            sub = any(k.__class__ is str and pol is True and 'Lexer::SUBNINJA' in k and '==' in k for k, pol in facts)
+            v = path_value(parse, e['args'][0], facts)
+            if inc == sub:
+                return True             # neither (or both): the call is not tied to one of the two keywords
+            return v != (1 if sub else 0)
+        r = parse.find_path(None, lambda x: x is e, from_succ=parse.entry, hit_ok=wrong_scope)
+        ctx.check('C12.TA1', r is None, parse.name, 'include-kind:new_scope', parse.where(e),
+                  'ParseFileInclude(new_scope) is called with false under `include` and true under `subninja` (%s)' % dstr(e['args'][0])[:50],
+                  witness=None if r is None else {'blocks': r[0]})
     loads = list(pfi.calls('Parser::Load'))
     ctx.check('C12.TA1', len(loads) == 1, pfi.name, 'include:load-sites', pfi.loc, 'one sub-parser Load')
     envw = [e for e in pfi.events('asg') if mentions_field(e['l'], 'ManifestParser::env_') or mentions_field(e['l'], 'Parser::env_')]
@@ -216,10 +223,9 @@ def run(ctx):
     R('C12.O2', 'O', 'variable lookup order: bindings of the edge, then the rule binding evaluated '
       'in the edge\'s scope, then the enclosing scopes; $in / $in_newline / $out are answered first')
     lwf = prog.fn('BindingEnv::LookupWithFallback')
-    rets = list(lwf.events('ret'))
     cls = {}
-    for e in rets:
-        s = dstr(e.get('e'))
+    for e, val in answer_sites(lwf):
+        s = dstr(val)
         if 'second' in s:
             cls['own'] = e
         elif 'EvalString::Evaluate' in s:
@@ -269,13 +275,49 @@ def run(ctx):
         ctx.check('C12.O2', mentions_field(e.get('recv'), 'Edge::env_') and 'this' in dstr(e['args'][2]) and
                   mentions_call(e['args'][1], 'Rule::GetBinding') or var_named('eval')(e['args'][1]), elv.name,
                   'edge-lookup:fallback-args', elv.where(e), 'the generic lookup starts at the edge\'s scope with the rule binding')
+    # lookup order build, rule, file: an edge without bindings of its own shares the scope of its file
+    # (ManifestParser::ParseEdge), so that scope may be asked *before* the rule only when it is the edge's own
+    # (Edge::has_own_env_); otherwise the rule binding comes first and the shared scope last
+    own = lambda a: mentions_field(a, 'Edge::has_own_env_')
+    for e in fb:
+        guarded(ctx, 'C12.O2', elv, e, own, True, 'the scope is consulted before the rule only if it is the edge\'s own',
+                construct='edge-lookup:shared-scope-before-rule')
+    shared = [e for e in elv.calls('BindingEnv::LookupVariable') if mentions_field(e.get('recv'), 'Edge::env_')]
+    ctx.check('C12.O2', len(shared) >= 1, elv.name, 'edge-lookup:shared-scope-sites', elv.loc,
+              'an edge that shares its file\'s scope looks the variable up there after the rule')
+    for e in shared:
+        guarded(ctx, 'C12.O2', elv, e, own, False, 'plain scope lookup only for a shared scope', construct='edge-lookup:shared-scope-guard')
+        guarded(ctx, 'C12.O2', elv, e, var_named('eval'), False, 'the shared (file) scope is consulted only when the rule has no binding',
+                construct='edge-lookup:file-before-rule')
+    pe_ = prog.fn('ManifestParser::ParseEdge')
+    ow = [(f, e, kind, rhs) for f, e, kind, rhs in field_writes(prog, 'Edge::has_own_env_') if not e.get('init')]
+    ctx.check('C12.O2', {f.name for f, e, kind, rhs in ow} <= {'ManifestParser::ParseEdge', 'DyndepLoader::UpdateEdge'} and
+              any(f.name == 'ManifestParser::ParseEdge' for f, e, kind, rhs in ow), 'Edge::has_own_env_', 'own-scope-flag:writers', pe_.loc,
+              'has_own_env_ is set by the manifest parser (and by the dyndep loader when it creates a scope): %s' % sorted({f.name for f, e, kind, rhs in ow}))
+    for f, e, kind, rhs in ow:
+        if f.name != 'ManifestParser::ParseEdge':
+            continue
+        # the flag is the very condition under which a fresh BindingEnv was allocated for the edge
+        cond = dstr(deep_resolve(pe_, rhs))
+        envs = [x for x in pe_.stores() if any(y.get('k') == 'new' and 'BindingEnv' in str(y.get('ty', '')) for y in walk(x.get('r')))]
+        ok = False
+        for x in envs:
+            r = strip(x.get('r'))
+            if isinstance(r, dict) and r.get('k') == 'cond':
+                # `env = flag ? new BindingEnv(env_) : env_`
+                ok = ok or (dstr(deep_resolve(pe_, r['c'])) == cond and any(y.get('k') == 'new' for y in walk(r['t'])))
+            else:
+                # `if (flag) env = new BindingEnv(env_);`
+                ok = ok or fact_holds(pe_.facts_at(x), lambda a: dstr(deep_resolve(pe_, a)) == cond, True)
+        ctx.check('C12.O2', ok, pe_.name, 'own-scope-flag:value', pe_.where(e),
+                  'has_own_env_ is true exactly when the edge got a fresh BindingEnv (%s)' % cond[:60])
     # a rule binding exists iff its key is in the map - an explicitly empty value still shadows outer scopes
     rgb = prog.fn('Rule::GetBinding')
     reached_only_through(ctx, 'C12.O2', rgb, lambda x: x['k'] == 'ret' and (const_value(x.get('e')) == 0 or dstr(x.get('e')) in ('null', 'nullptr', '0')),
                          lambda efs: any(pol is True and 'end()' in k and ('operator==' in k or '==' in k) for k, pol, atom in efs),
                          'Rule::GetBinding answers "no such binding" only when the key is not in bindings_',
                          'Rule::GetBinding:null-for-present-key')
-    ctx.floor('C12.O2', 11)
+    ctx.floor('C12.O2', 16)
 
     # ---- CF: expansion time by type --------------------------------------------------------------
     R('C12.CF', 'CF', 'file- and build-level bindings can only store an evaluated string (immediate '
